@@ -33,10 +33,18 @@ func toRecipe(c oracle.CharSpec) spg.CharRecipe {
 		ExcludeChars: c.ExcludeChars,
 	}
 	if c.RequireSets != nil {
-		r.RequireSets = append([]string{}, c.RequireSets...)
+		// callers build such slices with append: leave spare capacity behind the
+		// last element (code that appends to the caller's slice then writes into
+		// memory the caller shares)
+		rs := make([]string, len(c.RequireSets), len(c.RequireSets)+spareCap)
+		copy(rs, c.RequireSets)
+		r.RequireSets = rs
 	}
 	return r
 }
+
+// spareCap is the extra capacity given to RequireSets slices built by toRecipe.
+var spareCap = 0
 
 var presetByName = map[string]spg.SFFunction{
 	"SFNone":               spg.SFNone,
@@ -80,6 +88,7 @@ type sepModel struct {
 	Entropy float64  // entropy the separator function is documented to report
 	Script  *scriptSep
 	Refused bool // functional separator whose recipe cannot generate (yields "")
+	Nested  bool // separator values are list words (or title forms) from a nested recipe
 }
 
 // buildSep returns SeparatorChar, SeparatorFunc and the model.
@@ -111,6 +120,9 @@ func buildSep(s gen.SepSpec) (string, spg.SFFunction, sepModel) {
 			return vals[spg.VerifRandomUint32n(uint32(len(vals)))], spg.FloatE(ent)
 		}
 		return "", f, sepModel{Values: vals, Uniform: true, Entropy: float64(ent)}
+	case "nested":
+		// filled in by buildWL (needs the list)
+		return "", nil, sepModel{Entropy: 0}
 	case "script":
 		sc := &scriptSep{vals: s.Script, ent: s.ScriptEnt}
 		return "", sc.fn, sepModel{Script: sc, Entropy: float64(s.ScriptEnt)}
@@ -128,6 +140,19 @@ func buildWL(w gen.WLSpec) (*spg.WLRecipe, sepModel, error) {
 	r.Capitalize = spg.CapScheme(w.Scheme)
 	var m sepModel
 	r.SeparatorChar, r.SeparatorFunc, m = buildSep(w.Sep)
+	if w.Sep.Kind == "nested" {
+		// the separator is a one-word password from a second recipe over the SAME list
+		inner := spg.NewWLRecipe(1, wl)
+		inner.Capitalize = spg.CapScheme(w.Sep.Const)
+		r.SeparatorFunc = func() (string, spg.FloatE) {
+			p, err := inner.Generate()
+			if err != nil {
+				return "", 0
+			}
+			return p.String(), spg.FloatE(p.Entropy)
+		}
+		m = sepModel{Nested: true, Entropy: float64(inner.Entropy())}
+	}
 	return r, m, nil
 }
 
